@@ -1605,3 +1605,8 @@ def m_opt_filter(I, st, c, args, cont, depth, site):
             return cont(st, v)
         return I.call_closure(st, args[1], [], cont, depth)
     raise Inconclusive('Option::' + op)
+
+
+@model(r'^(std::string::)?String::new$', 'String::new')
+def m_string_new(I, st, c, args, cont, depth, site):
+    cont(st, Opaque('str:""'))
